@@ -221,7 +221,7 @@ def r17_5(ctx):
     if not rs:
         return
     wh = calls_to(rs, "which::which")
-    cz = calls_to(rs, "std::path::Path::canonicalize")
+    cz = calls_to(rs, ("std::path::Path::canonicalize", "std::fs::canonicalize"))
     if not wh or not cz:
         ctx.anchor_missing("which() / canonicalize() in resolve_shell")
         return
